@@ -21,15 +21,29 @@ ValidSeqs(p) ==
 GenNext ==
   /\ Len(hist) < MaxOps
   /\ \/ \E t \in {t \in Txs : t \notin pool /\ Valid(St, t, LHeight)} : Submit(t)
-     \/ \E t \in RandomSubset(2, Txs) : Submit(t)
+     \/ LET S == {t \in Txs : ~OnChain(t, ptr) /\ ~Confirmed(t)} IN
+        \E t \in RandomSubset(IF Cardinality(S) < 2 THEN Cardinality(S) ELSE 2, S) : Submit(t)
      \/ \E p \in 1..n : \E seq \in RandomSubset(3, ValidSeqs(p)) : n < MaxBlocks /\ NewBlock(p, seq)
      \/ \E p \in RandomSubset(1, 1..n) : \E seq \in RandomSubset(1, {q \in TxSeqs : q # <<>>}) : MkBadBlock(p, seq)
      \/ \E b \in {c \in 2..n : Parent(c) = ptr} : Play(b, "*")
      \/ \E b \in RandomSubset(1, 2..n) : Play(b, "*")
-     \/ (pool # {} /\ Mine(TopoOrder(pool)))
-     \/ \E b \in RandomSubset(1, {0}) : Mine(TopoOrder(pool))
+     \/ (pool # {} /\ Mine(GoodOrder(Packable)))
+     \/ \E b \in RandomSubset(1, {0}) : Mine(GoodOrder(Packable))
      \/ \E d \in 1..n : Walk(d, FALSE, {"*"}, <<>>)
      \/ \E d \in RandomSubset(1, 1..n) : Walk(d, TRUE, {"*"}, <<>>)      \* pruning walk
      \/ Restart
 GenSpec == Init /\ [][GenNext]_vars
+(* C13 profile: fill the pool (all currently valid submissions), mine, occasionally restart / walk / peer block *)
+MinerNext ==
+  /\ Len(hist) < MaxOps
+  /\ \/ \E t \in {t \in Txs : t \notin pool /\ Valid(St, t, LHeight)} : Submit(t)
+     \/ \E t \in {t \in Txs : t \notin pool /\ Valid(St, t, LHeight)} : Submit(t)
+     \/ (pool # {} /\ Mine(GoodOrder(Packable)))
+     \/ (Cardinality(pool) >= 3 /\ Mine(GoodOrder(Packable)))
+     \/ \E b \in RandomSubset(1, {0}) : Mine(GoodOrder(Packable))
+     \/ \E p \in RandomSubset(1, 1..n) : \E seq \in RandomSubset(1, ValidSeqs(p)) : n < MaxBlocks /\ NewBlock(p, seq)
+     \/ \E d \in RandomSubset(1, 1..n) : Walk(d, FALSE, {"*"}, <<>>)
+     \/ \E d \in {ltip} : ptr # ltip /\ Walk(d, FALSE, {"*"}, <<>>)
+     \/ \E b \in RandomSubset(1, {0}) : Restart
+MinerSpec == Init /\ [][MinerNext]_vars
 =============================================================================
